@@ -656,9 +656,17 @@ impl ExecutableContent for SendParameters {
                 let global_clone = datamodel.global_s().clone();
                 let send_id_clone = send_id.clone();
                 let target_str = target_guard.to_string();
+                // Several pending sends may share one send id, each has its own timer.
+                let timer_id = PLATFORM_ID_COUNTER.fetch_add(1, Ordering::Relaxed);
                 let tg = fsm.schedule(delay_ms, move || {
                     if let Some(sid) = &send_id_clone {
-                        global_clone.lock().unwrap().delayed_send.remove(sid);
+                        let mut global = global_clone.lock().unwrap();
+                        if let Some(guards) = global.delayed_send.get_mut(sid) {
+                            guards.retain(|(id, _)| *id != timer_id);
+                            if guards.is_empty() {
+                                global.delayed_send.remove(sid);
+                            }
+                        }
                     }
                     iopc.lock()
                         .unwrap()
@@ -671,7 +679,9 @@ impl ExecutableContent for SendParameters {
                             .lock()
                             .unwrap()
                             .delayed_send
-                            .insert(sid.clone(), g);
+                            .entry(sid.clone())
+                            .or_default()
+                            .push((timer_id, g));
                     } else {
                         g.ignore();
                     }
